@@ -89,8 +89,15 @@ def _nm(h, N, adaptive):
               _strictbounds=cons, radius=0.05, adaptive=adaptive, id=None, _termination=h.fn('TERMINATION', ret='bool'),
               _energy_history=None, _solution_history=None, _init_popEnergy=h.inf(), _fcalls=h.clist([h.int('fcalls')]))
 
+    order = {'processed': False}
+
     def process_inputs(I, c, args, kwargs):
+        order['processed'] = True
         return I.st.alloc('dict', {'callback': cb})
+
+    def bootstrap(I, c, args, kwargs):
+        I.st.check('C03/step-settings-processed-before-the-objective-is-bootstrapped', order['processed'] is True)
+        return cost
 
     def mon_call(I, c, args, kwargs):
         from pyvc import models as Mo
@@ -108,7 +115,7 @@ def _nm(h, N, adaptive):
     if h.is_sym():
         h.set_summaries({
             (SO, 'NelderMeadSimplexSolver._process_inputs'): process_inputs,
-            (AS, 'AbstractSolver._bootstrap_objective'): lambda I, c, a, k: cost,
+            (AS, 'AbstractSolver._bootstrap_objective'): bootstrap,
             (AS, 'AbstractSolver.__save_state'): lambda I, c, a, k: None,
             (MONF, 'Monitor.__call__'): mon_call,
         })
